@@ -47,7 +47,15 @@ Fixpoint to_actions (g : bool) (me : N) (evs : list gev) (nreads : nat) (last : 
     | GRLock m => RLock m :: to_actions g me r nreads last
     | GRUnlock m => RUnlock m :: to_actions g me r nreads last
     | GRead l => Read l :: to_actions g me r (S nreads) ((l, nreads) :: last)
-    | GWrite l => Write l (write_fun g me (assoc l last)) :: to_actions g me r nreads last
+    | GWrite l =>
+      (* the value written derives from what the request last read from this location or, when it
+         never read it (the memory copy of neuronjson is computed from the stored annotation),
+         from its most recent read of any location; with no read at all it is a blind write *)
+      let k := match assoc l last with
+               | Some i => Some i
+               | None => match nreads with O => None | S n => Some n end
+               end in
+      Write l (write_fun g me k) :: to_actions g me r nreads last
     | GYield _ => to_actions g me r nreads last
     end
   end.
@@ -145,7 +153,9 @@ Definition find_witness (s : gsite) : option nat :=
 (* ---- cases written by the driver ---- *)
 Inductive mode :=
 | Forced (yield : string) (blocked : bool)   (* request 1 held at the yield point, request 2 run, 1 released *)
-| Stress (n : nat).                          (* n concurrent requests, ids 1..n *)
+| Stress (n : nat)                           (* n concurrent requests, ids 1..n *)
+| Live (yield : string) (blocked : bool)     (* as Forced, at a yield point that is not part of the site's model *)
+| Hang (n : nat) (yield : string).           (* the requests never finished (deadlock): n requests, held at yield ("" = stress) *)
 
 Record c11case := mkCase {
   c_site : string;
@@ -158,6 +168,8 @@ Record c11case := mkCase {
 Definition model_ok (c : c11case) : bool :=
   match c_mode c with
   | Stress _ => true
+  | Live _ _ => true
+  | Hang _ _ => true      (* liveness is outside the model: judged by the oracle only *)
   | Forced y blocked =>
     match find_site (c_site c) with
     | None => false
@@ -180,12 +192,16 @@ Definition model_ok (c : c11case) : bool :=
 
 (* ---- the property as an oracle on what the implementation showed ----
    kinds: 1 acknowledged write lost, 2 derived index disagrees with primary data,
-          3 two children on one branch, 4 other non-serialisable outcome *)
+          3 two children on one branch, 4 other non-serialisable outcome,
+          5 requests never complete (deadlock) *)
 Definition overwrite_site (name : string) : bool :=
   String.eqb name "keyvalue.PutData" || String.eqb name "keyvalue.DeleteData".
 
+Definition is_hang (m : mode) : bool := match m with Hang _ _ => true | _ => false end.
+
 Definition kind_of (c : c11case) : nat :=
-  if String.eqb (c_site c) "datastore.newVersion" then
+  if is_hang (c_mode c) then 5%nat
+  else if String.eqb (c_site c) "datastore.newVersion" then
     (* views: per branch, the requests whose child exists on it *)
     if existsb (fun lo => Nat.ltb 1 (List.length (snd lo))) (c_obs c) then 3%nat
     else if negb (N.eqb (c_extra c) 0) then 4%nat else 0%nat
@@ -218,7 +234,7 @@ Definition known_code (site : string) (kind : nat) : option nat :=
   else if String.eqb site "neuronjson.storeAndUpdate" then
     match kind with 1 => Some 51 | 2 => Some 52 | _ => None end%nat
   else if String.eqb site "datastore.newVersion" then
-    match kind with 3 => Some 63 | _ => None end%nat
+    match kind with 3 => Some 63 | 5 => Some 65 | _ => None end%nat
   else None.
 
 Definition spec_class (c : c11case) : nat :=
